@@ -145,7 +145,7 @@ type RankSpec struct {
 // Scenario is one case. The list of scenarios is a pure function of the seed.
 type Scenario struct {
 	ID      int         `json:"id"`
-	Kind    string      `json:"kind"` // mixed | nopeer | stopmid | reconnect | rank | idlestall | quietreconn
+	Kind    string      `json:"kind"` // mixed | nopeer | stopmid | reconnect | rank | idlestall | quietreconn | chatter
 	Peers   []PeerSpec  `json:"peers"`
 	Batches []BatchSpec `json:"batches"`
 	// StopAt: Stop is called at this point with whatever is in flight (no
@@ -165,6 +165,8 @@ type Scenario struct {
 	// "stay-then-gone").
 	Steps  []QStep `json:"steps,omitempty"`
 	Others string  `json:"others,omitempty"`
+	// Chatter (kind chatter): see chatter.go.
+	Chatter *ChatterSpec `json:"chatter,omitempty"`
 }
 
 // Generate returns n scenarios; scenario i depends only on (seed, i).
